@@ -1,5 +1,6 @@
 import Driver.Util
 import Driver.Lru
+import Driver.Registry
 open Lean
 
 def dispatch (j : Json) : Except String Json := do
@@ -7,6 +8,7 @@ def dispatch (j : Json) : Except String Json := do
   match op with
   | "lru" => Driver.LruD.handle j
   | "tmpl" => Driver.LruD.handleTmpl j
+  | "registry" => Driver.RegistryD.handle j
   | "ping" => pure (Json.mkObj [("pong", Json.bool true)])
   | _ => throw s!"unknown op {op}"
 
